@@ -768,15 +768,18 @@ META = {
                    "boolean tied to the class), the flags, the initial cache state, the step before which the process "
                    "is killed (a kill freezes the file system, so TemporaryDirectory clean-up of the dying run has no "
                    "effect; download and pickle writing are two steps each, exposing partial files), and for concurrency "
-                   "which loader runs next at every call that touches the shared cache path (loaders are real "
-                   "invocations in threads passing a baton). The explorer forks on these variables exactly as on numeric "
+                   "which loader runs next at every call that touches a shared path (loaders are real "
+                   "invocations in threads passing a baton; in one family one of the loaders is additionally killed before a symbolic one "
+                   "of its own calls - its later calls have no effect, what it buffered is lost - while the other goes on). The explorer forks on these variables exactly as on numeric "
                    "comparisons. Counterexamples are replayed on a real temporary directory with the same step "
                    "discipline (real pickle, real sha256, real os.rename, real np.loadtxt, gzip).",
     "bounds": {"quick": "n_retries in 0..3 with 5 attempt outcomes, kill before any of the <= 14 steps (also after a failed first attempt), plain and gzip, "
-                        "2 concurrent loaders, orderings AB/BA/ABA/BAB of two datasets, 4 pairs of real loaders",
-               "thorough": "n_retries in 0..4 with 6 attempt outcomes, 3 concurrent loaders"},
+                        "2 concurrent loaders, 2 concurrent loaders of which one is killed before any of its own <= 14 effectful calls (every interleaving), "
+                        "refresh of an entry that is an older version / cut short / identical (with and without a kill), "
+                        "orderings AB/BA/ABA/BAB of two datasets, 4 pairs of real loaders",
+               "thorough": "n_retries in 0..4 with 6 attempt outcomes, 3 concurrent loaders; one-killed also with download_even_if_available"},
     "outside": ["4..16 concurrent loaders", "kill granularity finer than call boundaries + the two partial-write points",
-                "kills combined with concurrency", "real sockets / disks / processes (kill = frozen file system)",
+                "more than one loader killed, a kill combined with 3+ loaders", "real sockets / disks / processes (kill = frozen file system)",
                 "all 76x76 orderings of the real loaders (4 pairs are run; pairwise-distinct cache slots for all are "
                 "established in C18)"],
     "assumptions": ["SHA-256 collision freedom: digest == pinned iff the payload is the pinned file",
